@@ -614,6 +614,10 @@ def _fs_fraction(op, va, vb, r):
         elif isinstance(op, ast.Div):
             if fa is not None and fb is None and sym_of(vb) is not None:
                 r.fsf = sp.cancel(fa / sym_of(vb))
+            elif fa is not None and fb is not None and fb != 0:
+                # the quotient of two frequencies is a pure number, known exactly -- but it is COMPUTED in floating point from two
+                # non-integers (sampling/2 over sampling/NFFT), so it can land an ulp below the exact value
+                r.fquot = sp.cancel(fa / fb)
     except Exception:
         r.fsf = None
 
@@ -689,6 +693,13 @@ def _binop(self, op, va, vb, node):
         elif isinstance(op, ast.FloorDiv):
             if a is not None and b is not None and b.is_const() and b.c != 0:
                 res = a.scale(1 / b.c).floor()
+        elif isinstance(op, ast.RShift):
+            # x >> c == x // 2**c for integers
+            if a is not None and b is not None and b.is_const() and b.c >= 0 and b.c.denominator == 1:
+                res = a.scale(F(1, 2 ** int(b.c))).floor()
+        elif isinstance(op, ast.LShift):
+            if a is not None and b is not None and b.is_const() and b.c >= 0 and b.c.denominator == 1:
+                res = a.scale(2 ** int(b.c))
         elif isinstance(op, ast.Mod):
             if a is not None and b is not None and b.is_const() and b.c > 0:
                 q = a.scale(1 / b.c)
@@ -902,6 +913,15 @@ def compare_vals(self, op, a, b, node):
                 return Const(a.v >= b.v, t)
         except Exception:
             return BoolV(False, t)
+    # a context may state that two of its symbolic inputs are different values (`new.differs_from = {uid of the old one}`)
+    if isinstance(op, (ast.Eq, ast.NotEq)) and isinstance(a, Num) and isinstance(b, Num):
+        if a.uid in getattr(b, 'differs_from', ()) or b.uid in getattr(a, 'differs_from', ()):
+            return Const(isinstance(op, ast.NotEq), t)
+    # a number never equals None
+    if isinstance(op, (ast.Eq, ast.NotEq)):
+        for x, y in ((a, b), (b, a)):
+            if isinstance(y, Const) and y.v is None and isinstance(x, (Num, IntV)):
+                return Const(isinstance(op, ast.NotEq), t)
     # identity / None tests
     if isinstance(op, (ast.Is, ast.IsNot)):
         neg = isinstance(op, ast.IsNot)
@@ -1155,6 +1175,8 @@ def attr_of(self, v, attr, st, n):
                 from . import charge as Q
                 r.q = Q.lin2(nv.q[2], nv.q[1], nv.q[3]) if Q.is_lin2(nv.q) else None
             self.share(r, v, whole=False)
+            if nv.shape is not None and len(nv.shape) == 2:
+                r.tr = not nv.tr
             return r
         if attr == 'dtype':
             if nv.cplx is True and getattr(nv, 'c64', False):
